@@ -1,16 +1,10 @@
-# per-property configuration of ./check
-PROPS = {
-    "C09": {
-        "lean": ["ErgoVerif.Props.C09"],
-        "anchors": [],
-        "technique": "Lean 4 theorem (induction over the failure history, lazily pruned list = window of the full history) + differential correspondence with the real function via a verif export",
-        "level_text": "C09_window proves for every period, intensity and monotone failure history that folding the model of supCheckRestartIntensity gives exactly the rule's verdicts; the model is tied to the code by running both on stored histories placed on the window boundary and on whole virtual-time histories.",
-        "level_note": "Trusted: Lean kernel, harness; the clock is assumed monotone; the tie is differential (sampled), the theorem is about the model.",
-        "assumptions": ["time.Now().UnixMilli() is monotone non-decreasing over a supervisor's life (the theorem is stated for sorted histories)",
-                        "Period and Intensity are uint16 (no overflow in period*1000)"],
-    },
-}
-
+# per-property configuration of ./check: one JSON file per property under config/
+import json, os, glob
+_d = os.path.dirname(os.path.abspath(__file__))
+PROPS = {}
+for f in sorted(glob.glob(os.path.join(_d, "config", "C*.json"))):
+    PROPS[os.path.basename(f)[:-5]] = json.load(open(f))
 ALL = ["C%02d" % i for i in range(1, 21)]
-HOOK_COMMITS = ["74f0c8d54e1a04353b733ad6349e5311aabb612f"]
+_h = os.path.join(_d, "config", "hook_commits.txt")
+HOOK_COMMITS = [l.split()[0] for l in open(_h) if l.strip() and not l.startswith("#")] if os.path.exists(_h) else []
 NOT_APPLICABLE = [{"property_id": p, "reason": "check not built yet (work in progress; see DESIGN.md §6 for the plan)"} for p in ALL if p not in PROPS]
